@@ -199,6 +199,21 @@ func helperClosure(p *Prog, roots []*Func, depth int) map[*Func]int {
 func ctorLitMatches(fn *Func, e ast.Expr, sel emitSel) bool {
 	call, ok := ast.Unparen(e).(*ast.CallExpr)
 	if !ok {
+		// a local that holds the (first) result of the constructor: x, ok := mk(…); append(xs, x)
+		if id, isID := ast.Unparen(e).(*ast.Ident); isID {
+			if o := fn.Info().ObjectOf(id); o != nil {
+				as := fn.Assignments(o)
+				if len(as) == 1 {
+					if s, isAs := as[0].(*ast.AssignStmt); isAs && len(s.Rhs) == 1 && len(s.Lhs) >= 1 {
+						if lid, isL := s.Lhs[0].(*ast.Ident); isL && fn.Info().ObjectOf(lid) == o {
+							call, ok = ast.Unparen(s.Rhs[0]).(*ast.CallExpr)
+						}
+					}
+				}
+			}
+		}
+	}
+	if !ok || call == nil {
 		return false
 	}
 	f := calleeOf(fn.Info(), call)
